@@ -2,7 +2,7 @@
 import re
 from analysis.engine import rule, AnchorMissing
 from analysis import cfg
-from analysis.sym import sym, show_in, nosite, peel, core, walk, ret_values, args_of, guards_at, atoms_at, \
+from analysis.sym import init_value, sym, show_in, nosite, peel, core, walk, ret_values, args_of, guards_at, atoms_at, \
     variant_facts_at, cmp_facts_at, loop_source
 from analysis.pat import match, Call, Cap, ANY, Pred, Const, has, chain_names
 from rules.common import closure_of, closures_in
@@ -20,6 +20,11 @@ def r1(ctx):
     recv = sym(b, w.ticket.args[0])
     ok = match(recv, Call('deref_mut', ('unwrap', Call('Mutex::lock', ANY)))) or \
         match(peel(recv), ('unwrap', Call('Mutex::lock', ANY)))
+    if not ok:
+        # the guard bound to a name first (`let mut guard = m.lock().expect(..); guard.next()`)
+        recv2 = init_value(b, recv)
+        ok = match(recv2, Call('deref_mut', ('unwrap', Call('Mutex::lock', ANY)))) or match(peel(recv2), ('unwrap', Call('Mutex::lock', ANY))) or \
+            has(recv2, Call('Mutex::lock', ANY))
     ctx.require(ok, b, 'ticket-under-lock', 'ticket = shared.lock().next() (index and item taken in one step under the mutex)',
                 'ticket pull receiver is %s' % show_in(b, recv), w.ticket.span)
     # no second lock / nothing else pulls from the shared iterator
